@@ -27,17 +27,21 @@ Definition show_err (nf : nat) (e : err) : string :=
   | ESyntax f => "err:syntax:" ++ show_efile nf f | ENoFile => "err:nofile" | EUnres f => "err:unresolved:" ++ show_efile nf f
   | EObj f => "err:obj:" ++ show_efile nf f | EMp f => "err:mp:" ++ show_efile nf f | EFuel => "FUEL" | EMissing f => "MISSING:" ++ show_nat f
   end.
-Definition show_load (nf : nat) (c : cfg) (r : (err + nat) * state) : string :=
+(* norepo: the result has no _tx_model_repository (a string main under the RREL '+m:' provider without references:
+   load_models, which creates the repository object, is called once per reference); get_included_models is then the
+   model alone.  Loading itself is as modelled: resolution and processors range over the models under construction. *)
+Definition show_load_gen (norepo : bool) (nf : nat) (c : cfg) (r : (err + nat) * state) : string :=
   let '(res, s) := r in
   let g := if cglobal c then show_dict nf c s (allm s) else "-" in
   let rd := sjoin "," (map show_nat (reads s)) in
   match res with
-  | inr m => "ok|" ++ rd ++ "|" ++ show_tok nf c s m ++ "|" ++ sjoin ";" (map (show_model nf c s) (included m s))
-             ++ "|" ++ show_dict nf c s (allm s) ++ "|" ++ g
+  | inr m => "ok|" ++ rd ++ "|" ++ show_tok nf c s m ++ "|" ++ sjoin ";" (map (show_model nf c s) (if norepo then [m] else included m s))
+             ++ "|" ++ (if norepo then "" else show_dict nf c s (allm s)) ++ "|" ++ g
   | inl e => show_err nf e ++ "|" ++ rd ++ "|-|"
              ++ sjoin ";" (map (show_model nf c s) (if cglobal c then map snd (allm s) else [])) ++ "|-|" ++ g
   end.
 
+Definition show_load := show_load_gen false.
 Definition at_op (s : state) (i : nat) : state := mkState (heap s) (allm s) (locals s) (constr s) (targets s) (reads s) i.
 Fixpoint run_ops (c : cfg) (fs : list file) (s : state) (i : nat) (ops : list op) : list string :=
   match ops with
@@ -48,7 +52,7 @@ Fixpoint run_ops (c : cfg) (fs : list file) (s : state) (i : nat) (ops : list op
       show_load (List.length fs) c r :: run_ops c fs (snd r) (S i) t
   | OLoadStr fc :: t =>
       let r := load_str fs c fc (at_op s i) in
-      show_load (List.length fs) c r :: run_ops c fs (snd r) (S i) t
+      show_load_gen (clazy c && is_nil (frefs fc))%bool (List.length fs) c r :: run_ops c fs (snd r) (S i) t
   end.
 
 (* histories over several languages *)
